@@ -33,6 +33,9 @@ def cycle(namespace):
         return 'reading back what was written failed: %s: %s' % (type(e).__name__, e)
     if xml1 != xml2:
         return _first_difference(xml1, xml2)
+    d = model_difference(namespace, ns2)
+    if d is not None:
+        return 'model read back differs: ' + d[:400]
     try:
         p = girparser.GIRParser()
         p.parse_tree(ET.parse(io.BytesIO(xml2)))
@@ -42,6 +45,119 @@ def cycle(namespace):
     if xml3 != xml2:
         return 'second cycle: ' + _first_difference(xml2, xml3)
     return None
+
+
+# ------------------------------------------------------------------------------
+# model comparison: what was written vs what was read back, on API-relevant properties
+
+def _tkey(t):
+    if t is None:
+        return None
+    if not t.resolved and not isinstance(t, (ast.Array, ast.List, ast.Map)):
+        return ('unresolved',)      # written without a name; the reader's TypeUnknown
+    k = [type(t).__name__, t.target_fundamental, t.target_giname, bool(t.target_foreign)]
+    if isinstance(t, ast.Array):
+        k += [t.array_type, t.zeroterminated, t.size, t.length_param_name, _tkey(t.element_type)]
+    elif isinstance(t, ast.List):
+        k += [t.name, _tkey(t.element_type)]
+    elif isinstance(t, ast.Map):
+        k += [_tkey(t.key_type), _tkey(t.value_type)]
+    return tuple(k)
+
+
+def _vkey(v):
+    return (getattr(v, 'argname', None), _tkey(v.type),
+            (v.direction or 'in') if isinstance(v, ast.Parameter) else None, v.transfer, bool(v.nullable),
+            bool(getattr(v, 'optional', False)),
+            bool(v.skip), getattr(v, 'scope', None), getattr(v, 'closure_name', None), getattr(v, 'destroy_name', None),
+            bool(getattr(v, 'caller_allocates', False)), v.doc, tuple(sorted(v.attributes.items())))
+
+
+def _gkey(n):
+    return (n.version, n.deprecated, n.deprecated_doc, n.stability, n.doc,
+            bool(n.skip) or not n.introspectable,       # one attribute in the file: introspectable="0"
+            tuple(sorted(n.attributes.items())))
+
+
+def _ckey(c):
+    return ('Function' if isinstance(c, ast.Function) else type(c).__name__, c.name, getattr(c, 'symbol', None),
+            bool(c.throws), _vkey(c.retval),
+            tuple(_vkey(p) for p in c.parameters),
+            _vkey(c.instance_parameter) if c.instance_parameter is not None else None,
+            getattr(c, 'shadows', None), getattr(c, 'shadowed_by', None), getattr(c, 'moved_to', None),
+            getattr(c, 'invoker', None), c.finish_func, c.sync_func, c.async_func) + _gkey(c)
+
+
+def _fkey(f):
+    if f.anonymous_node is not None:
+        an = f.anonymous_node
+        return (f.name, 'anon', _ckey(an) if isinstance(an, ast.Callable) else _nkey(an))
+    return (f.name, _tkey(f.type), bool(f.readable), bool(f.writable), str(f.bits) if f.bits else None, bool(f.private)) + _gkey(f)
+
+
+def _nkey(n):
+    k = [type(n).__name__, n.name] + list(_gkey(n))
+    if isinstance(n, ast.Callable):
+        return _ckey(n)
+    if isinstance(n, ast.Alias):
+        k += [n.ctype, _tkey(n.target)]
+    if isinstance(n, ast.Constant):
+        k += [n.ctype, n.value, _tkey(n.value_type)]
+    if isinstance(n, (ast.Enum, ast.Bitfield)):
+        k += [n.ctype, n.gtype_name, n.get_type, getattr(n, 'error_domain', None),
+              tuple((m.name, str(m.value), m.symbol, m.nick) + _gkey(m) for m in n.members),
+              tuple(sorted(_ckey(f) for f in n.static_methods))]
+    if isinstance(n, ast.Compound):
+        k += [n.ctype, n.gtype_name, n.get_type, n.c_symbol_prefix, tuple(_fkey(f) for f in n.fields),
+              tuple(sorted(_ckey(f) for f in n.methods)), tuple(sorted(_ckey(f) for f in n.constructors)),
+              tuple(sorted(_ckey(f) for f in n.static_methods))]
+    if isinstance(n, ast.Record):
+        k += [_tkey(n.is_gtype_struct_for), bool(n.foreign), bool(n.disguised), bool(n.opaque), n.copy_func, n.free_func]
+    if isinstance(n, (ast.Class, ast.Interface)):
+        k += [n.ctype, n.gtype_name, n.get_type, n.c_symbol_prefix, _tkey(n.glib_type_struct),
+              tuple(_fkey(f) for f in n.fields),
+              tuple(sorted(_ckey(f) for f in n.methods)), tuple(sorted(_ckey(f) for f in n.virtual_methods)),
+              tuple(sorted(_ckey(f) for f in n.static_methods)),
+              tuple(sorted((p.name, _tkey(p.type), bool(p.readable), bool(p.writable), bool(p.construct),
+                            bool(p.construct_only), p.transfer, p.setter, p.getter, p.default_value) + _gkey(p)
+                           for p in n.properties)),
+              tuple(sorted((sg.name, sg.when, bool(sg.no_recurse), bool(sg.detailed), bool(sg.action), bool(sg.no_hooks),
+                            sg.emitter, _vkey(sg.retval), tuple(_vkey(p) for p in sg.parameters)) + _gkey(sg)
+                           for sg in n.signals))]
+    if isinstance(n, ast.Class):
+        k += [_tkey(n.parent_type), tuple(sorted(_tkey(i) for i in n.interfaces)), bool(n.is_abstract), bool(n.is_final),
+              tuple(sorted(_ckey(f) for f in n.constructors)), n.ref_func, n.unref_func, n.set_value_func, n.get_value_func]
+    if isinstance(n, ast.Interface):
+        k += [tuple(sorted(_tkey(i) for i in n.prerequisites))]
+    return tuple(k)
+
+
+def model_difference(ns1, ns2):
+    """First API-relevant difference between the written and the read-back model, or None."""
+    if (ns1.name, ns1.version) != (ns2.name, ns2.version):
+        return 'namespace name/version'
+    n1 = dict((n, v) for n, v in ns1.names.items())
+    n2 = dict((n, v) for n, v in ns2.names.items())
+    # nodes the writer leaves out (internal_skipped compatibility copies) are not part of the file
+    n1 = dict((k, v) for k, v in n1.items() if not getattr(v, 'internal_skipped', False))
+    if sorted(n1) != sorted(n2):
+        return 'node names differ: %r' % (sorted(set(n1) ^ set(n2)),)
+    for name in sorted(n1):
+        try:
+            a, b = _nkey(n1[name]), _nkey(n2[name])
+        except Exception as e:
+            return 'cannot compare %s: %s: %s' % (name, type(e).__name__, e)
+        if a != b:
+            return 'node %s: written %r, read back %r' % (name, _firstdiff(a, b)[0], _firstdiff(a, b)[1])
+    return None
+
+
+def _firstdiff(a, b):
+    if isinstance(a, tuple) and isinstance(b, tuple) and len(a) == len(b):
+        for x, y in zip(a, b):
+            if x != y:
+                return _firstdiff(x, y)
+    return (a, b)
 
 
 def _first_difference(a, b):
@@ -186,6 +302,7 @@ def _rich_decls():
                          rec_extra_fields=[s_member('cb', t_ptr(t_func(t_void(), [s_param('v', t_basic('int'))]))),
                                            s_member('bits', t_basic('unsigned int'), bits=3),
                                            s_member('arr', t_array(t_basic('int'), 4)),
+                                           s_member('tail', t_array(t_basic('char'), 0)),
                                            s_member('priv', t_basic('int'), private=True)])
     d += [s_function('foo_frob', t_basic('int'), [s_param('a', t_basic('int'))]),
           s_function('foo_obj_poke', t_void(), [s_param('self', t_ptr(t_typedef('FooObj'))), s_param('v', t_basic('int'))]),
